@@ -186,6 +186,7 @@ func storeUserMap(um *UserMap, m *map[string]bool) {
 // ConfigMap updates do) and, while its reload is still parsing, a small list is written in place.  Once the small
 // list is in force it must stay in force: a reload that started earlier must not publish its (older) contents later.
 func vC20Watcher(t *testing.T, out *vEmitter) {
+	defer vC20PathSpellings(t, out)
 	dir, err := os.MkdirTemp("", "verif-watch-")
 	if err != nil {
 		t.Fatal(err)
@@ -242,4 +243,63 @@ func vC20Watcher(t *testing.T, out *vEmitter) {
 		}
 	}
 	out.Obs("usermap-watcher", true, vL("watcher", vI(int64(rounds)), vI(atomic.LoadInt64(&updates))))
+}
+
+// vC20PathSpellings: the operator may spell the file's path in any legal way; a rewrite of the file is picked up
+// whichever spelling was configured.  The clean spelling is the control: if not even that one reloads, file
+// notification does not work in this environment and nothing is claimed.
+func vC20PathSpellings(t *testing.T, out *vEmitter) {
+	dir, err := os.MkdirTemp("", "verif-spell-")
+	if err != nil {
+		t.Fatal(err)
+	}
+	defer os.RemoveAll(dir)
+	_ = os.MkdirAll(filepath.Join(dir, "sub"), 0o755)
+	spell := []struct{ label, path string }{
+		{"clean", filepath.Join(dir, "emails-0.txt")},
+		{"dot-segment", dir + "/./emails-1.txt"},
+		{"double-slash", dir + "//emails-2.txt"},
+		{"dot-dot-segment", dir + "/sub/../emails-3.txt"},
+		{"trailing-dot-dir", dir + "/sub/.././emails-4.txt"},
+	}
+	worked := map[string]bool{}
+	for _, sp := range spell {
+		if err := os.WriteFile(sp.path, []byte("old@example.com\n"), 0o600); err != nil {
+			t.Fatal(err)
+		}
+		done := make(chan bool)
+		um := NewUserMap(sp.path, done, func() {})
+		ok := false
+		for attempt := 0; attempt < 3 && !ok; attempt++ {
+			if attempt%2 == 0 {
+				_ = os.WriteFile(sp.path, []byte("new@example.com\n"), 0o600)
+			} else {
+				tmp := filepath.Clean(sp.path) + ".tmp"
+				_ = os.WriteFile(tmp, []byte("new@example.com\n"), 0o600)
+				_ = os.Rename(tmp, filepath.Clean(sp.path))
+			}
+			dl := time.Now().Add(3 * time.Second)
+			for time.Now().Before(dl) {
+				if um.IsValid("new@example.com") && !um.IsValid("old@example.com") {
+					ok = true
+					break
+				}
+				time.Sleep(10 * time.Millisecond)
+			}
+		}
+		close(done)
+		worked[sp.label] = ok
+		out.Obs("path-spelling", true, vL(vS(sp.label), vBool(ok)))
+		out.Stat("c20_path_spellings", 1)
+	}
+	if !worked["clean"] {
+		out.Stat("c20_watcher_silent", 1)
+		return
+	}
+	for _, sp := range spell {
+		if !worked[sp.label] {
+			out.Violation("reload/final-contents-not-visible", "a rewritten allow-list file was never reloaded: validations keep reflecting the old contents",
+				map[string]interface{}{"driven_by": "file watcher", "path_spelling": sp.label, "configured_path": strings.Replace(sp.path, dir, "<dir>", 1)})
+		}
+	}
 }
